@@ -85,6 +85,14 @@ impl Block {
     }
 
     pub(crate) fn read(&self, in_block_offset: u64) -> std::io::Result<(Entry, usize)> {
+        // An entry header never straddles the end of its block: a position that leaves no room for
+        // one is not an entry (and reading there could run past the end of the file).
+        if in_block_offset.saturating_add(PREFIX_META_SIZE as u64) > self.limit {
+            return Err(std::io::Error::new(
+                std::io::ErrorKind::InvalidData,
+                "no room for an entry header",
+            ));
+        }
         let mut meta_buffer = vec![0; PREFIX_META_SIZE];
         let file_offset = self.offset + in_block_offset;
         self.mmap.read(file_offset as usize, &mut meta_buffer);
